@@ -534,27 +534,28 @@ func (e *Engine) emitLazy(p *partition, completions []*run, survivors *[]*run) [
 	return emitted
 }
 
-// emitGreedy 处理贪婪模式的完成匹配：pending 已按 startSeq 暂存（只留最长），emit 延伸
-// 终止的 startSeq（survivors 中无同 startSeq 的 run）。survivors 为空时 emit 全部（供 Flush）。
+// emitGreedy 处理贪婪模式的完成匹配：pending 已按 startSeq 暂存（只留最长），按 startSeq 升序 emit
+// 延伸已终止的起点。最左优先：只要 survivors 中还有更早或相同 startSeq 的 run 在延伸，该起点及其后
+// 的起点都等待——更早起点若最终成匹配，按 SKIP 规则先于（PAST LAST ROW 下覆盖）后面的起点；若其
+// run 全部死亡，后面的起点到那时再 emit。survivors 为空时 emit 全部（供 Flush）。
 func (e *Engine) emitGreedy(p *partition, survivors *[]*run) []map[string]any {
 	if len(p.pending) == 0 {
 		return nil // 默认贪婪模式每事件调用：无在途匹配时短路，避免无用 map 分配
 	}
-	active := make(map[int64]bool, len(*survivors))
-	for _, r := range *survivors {
-		active[r.startSeq] = true
-	}
-	var ready []int64
+	starts := make([]int64, 0, len(p.pending))
 	for s := range p.pending {
-		if !active[s] && s >= p.nextStart {
-			ready = append(ready, s)
+		if s >= p.nextStart {
+			starts = append(starts, s)
 		}
 	}
-	sort.Slice(ready, func(i, j int) bool { return ready[i] < ready[j] })
+	sort.Slice(starts, func(i, j int) bool { return starts[i] < starts[j] })
 	var emitted []map[string]any
-	for _, s := range ready {
+	for _, s := range starts {
 		if s < p.nextStart {
 			continue // 被前一轮 SKIP 推进跳过（直接守卫，与 emitLazy 一致）
+		}
+		if earliestStart(*survivors) <= s {
+			break // 更早/同起点仍在延伸（emitOne 会按 SKIP 裁剪 survivors，故每轮重算）
 		}
 		best := p.pending[s][0]
 		emitted = append(emitted, e.emitOne(p, best, survivors)...)
@@ -562,6 +563,17 @@ func (e *Engine) emitGreedy(p *partition, survivors *[]*run) []map[string]any {
 	}
 	e.prunePending(p, p.nextStart)
 	return emitted
+}
+
+// earliestStart 返回 runs 中最小的 startSeq；为空时返回 maxInt64。
+func earliestStart(runs []*run) int64 {
+	min := maxInt64
+	for _, r := range runs {
+		if r.startSeq < min {
+			min = r.startSeq
+		}
+	}
+	return min
 }
 
 // prunePending 清除 startSeq < nextStart 的暂存完成匹配（已被 SKIP 跳过）。
